@@ -11,25 +11,26 @@ SPEC = {
              "(b) SELECT text with generated condition trees (shard-key tag =, other tag operators incl. regex, field comparisons, time bounds on AND paths, AND/OR/parentheses) goes through "
              "query.Prepare -> real ClusterShardMapper.MapShards; the consulted shard set must contain the shard of every stored row that definitely satisfies the condition "
              "(own evaluator: absent tag = '', absent field/unknown key/regex on absent tag = false). Ladder: AND-only -> OR over shard-key equalities -> full language -> "
-             "+ALTER SHARDKEY -> +regex measurement source -> range sharding. A case is non-trivial when, for route campaigns, >= 2 rows and >= 2 groups exist; for prune campaigns, "
+             "+ALTER SHARDKEY -> +regex measurement source -> range sharding -> /*+ full_series */ hint with the complete tag set of a written series (only rows of exactly that series are required). A case is non-trivial when, for route campaigns, >= 2 rows and >= 2 groups exist; for prune campaigns, "
              "some query has >= 1 matching row and either the mapper pruned (strict subset of the shards of the groups in range) or the condition has OR / a non-tag operand with matches in >= 2 shards; "
              "distinct = hash of the whole case"),
     "assumptions": [
         "all partitions are Online (write-available-first routing of writes while a partition is offline is outside the quantifier)",
         "the harness' meta client is the real metaclient.Client reading the shared meta.Data; only its RPC-sending methods (CreateShardGroup, CreateMeasurement, UpdateSchema) are replaced by applying the same command locally",
         "negative timestamps are outside the domain (the line protocol parser rejects them)",
-        "known-finding classes A, B (higher OR rungs), C (prune_alter), D (prune_regex_source), R (range campaigns) are excluded by construction and counted; replays/C11/*.json hold one minimal case each",
+        "known-finding classes A, B (higher OR rungs), C (prune_alter), D (prune_regex_source), R (range campaigns), H (hint campaign) are excluded by construction and counted; replays/C11/*.json hold one minimal case each (C11_CHECK_KNOWN=ABCDRH checks them too)",
     ],
     "campaigns": [
-        {"name": "route_hash", "run": "^TestRouteHash$", "quick": B(3000, 2), "thorough": B(250000, 2, 3000)},
+        {"name": "route_hash", "run": "^TestRouteHash$", "quick": B(4000, 1), "thorough": B(250000, 2, 3000)},
         {"name": "route_hash_alter", "run": "^TestRouteHashAlter$", "quick": B(2000, 1), "thorough": B(250000, 1, 3000)},
         {"name": "route_range", "run": "^TestRouteRange$", "quick": B(3000, 2), "thorough": B(250000, 2, 3000)},
         {"name": "prune_and", "run": "^TestPruneAnd$", "quick": B(4000, 2), "thorough": B(250000, 2, 3000)},
         {"name": "prune_or_keys", "run": "^TestPruneOrKeys$", "quick": B(4000, 2), "thorough": B(250000, 2, 3000)},
-        {"name": "prune_full", "run": "^TestPruneFull$", "quick": B(6000, 2), "thorough": B(250000, 3, 3000)},
+        {"name": "prune_full", "run": "^TestPruneFull$", "quick": B(6000, 2), "thorough": B(250000, 2, 3000)},
         {"name": "prune_alter", "run": "^TestPruneAlter$", "quick": B(3000, 2), "thorough": B(250000, 1, 3000)},
         {"name": "prune_regex_source", "run": "^TestPruneRegexSource$", "quick": B(3000, 1), "thorough": B(250000, 1, 3000)},
         {"name": "prune_range", "run": "^TestPruneRange$", "quick": B(3000, 2), "thorough": B(250000, 2, 3000)},
+        {"name": "prune_hint_full_series", "run": "^TestPruneHintFullSeries$", "quick": B(3000, 1), "thorough": B(250000, 1, 3000)},
     ],
 }
 
@@ -40,5 +41,5 @@ META = {
     "text": ("Every generated point must land in exactly one shard of the group covering its timestamp, deterministically; for every generated query the shards consulted must "
              "include the shard of every stored row that satisfies the condition. Exploration: finds counterexamples, never proves absence."),
     "note": ("Library level: no storage engine, no network; the storage layer is a recorder. Trusts the harness' own condition evaluator (kept conservative: in doubt an atom is false, "
-             "which can only hide a violation). Partition/node failures and the hint-query pruning path (TargetShardsHintQuery) are not covered."),
+             "which can only hide a violation). Partition/node failures and the specific_series hint are not covered."),
 }
